@@ -313,6 +313,17 @@ func runCheckOne(args []string) int {
 	os.RemoveAll(workDir)
 	solveStart := time.Now()
 	discharge(sel, workDir, timeout, 16)
+	// an undecided answer may be an artefact of machine load (48 solver processes race on 16 cores, other jobs may run):
+	// those obligations get a second, calmer attempt (two at a time, three times the budget) before anything is reported
+	var again []*Obligation
+	for _, o := range sel {
+		if o.Status == "timeout" || o.Status == "unknown" || o.Status == "error" {
+			again = append(again, o)
+		}
+	}
+	if len(again) > 0 && len(again) <= 40 {
+		discharge(again, filepath.Join(workDir, "retry"), 3*timeout, 2)
+	}
 	solveS := time.Since(solveStart).Seconds()
 
 	// classify
@@ -637,7 +648,7 @@ func reportViolation(prop string, o *Obligation, workDir string, rp *replayResul
 		}
 	}
 	path := writeReplayFile(prop, o.Name, what, model)
-	return fmt.Sprintf("VIOLATION property=%s replay=%s obligation=%s%s", prop, path, o.Name, suffix)
+	return fmt.Sprintf("VIOLATION property=%s replay=%s obligation=%s status=%s%s", prop, path, o.Name, o.Status, suffix)
 }
 
 // reachableFrom: names of rulio functions statically reachable from functions matching the root patterns.
